@@ -44,10 +44,14 @@ func (inv *IndexInvertedString) InsertUpdateDelete(ctx context.Context, in <-cha
 
 func (inv *IndexInvertedString) Search(options models.SearchStringOptions) (*roaring64.Bitmap, error) {
 	query := options.Value
+	endQuery := options.EndValue
 	if !inv.params.CaseSensitive {
 		query = strings.ToLower(query)
+		// The end value of a range query is compared with the same lower
+		// cased keys, so it needs the same treatment.
+		endQuery = strings.ToLower(endQuery)
 	}
-	return inv.inner.Search(query, options.EndValue, options.Operator)
+	return inv.inner.Search(query, endQuery, options.Operator)
 }
 
 // ---------------------------
